@@ -219,38 +219,7 @@ def run(db, rep, feat, tier):
     r.decide(lo >= MIN_WINDOW, "window_length", where(gets[0][0]),
              "the window length %s can be as small as %s bytes: an instruction that does not fit fails to decode" % (show(t)[:120], lo))
 
-    # ---------------------------------------------------------------- R7 merge
-    mb = db.mir.get(MERGE)
-    rep.anchor(mb is not None, MERGE)
-    rep.analysed(MERGE)
-    mcfg = Cfg(mb)
-    adt = db.adt(CFGT)
-    fields = [f["name"] for f in adt["variants"][0]["fields"]]
-    ei, xi = ".%d" % fields.index("entry"), ".%d" % fields.index("exit")
-    r = rep.rule("R7", "K5", "merge keeps the entry: it never assigns the entry field, no block is scheduled for merging before the "
-                 "successor was compared with the entry, and when the absorbed block was the exit the exit moves to the absorber")
-    writes = [(i, s_) for i, b in enumerate(mb["blocks"]) for s_ in b["s"] if len(s_["d"]) >= 3 and s_["d"][0] == 1 and s_["d"][-1] in (ei, xi)]
-    ew = [w for w in writes if w[1]["d"][-1] == ei]
-    xw = [w for w in writes if w[1]["d"][-1] == xi]
-    r.decide(not ew, "entry_not_written", db.where(mb, ew[0][1]["l"]) if ew else db.where(mb),
-             "merge assigns the entry: the block at the function address can be absorbed by a predecessor and execution starts elsewhere")
-    r.decide(len(xw) == 1, "exit_follows_absorber", db.where(mb), "merge must move the exit to the absorbing block exactly once")
-    ecalls = calls(mb, CFGT + "::entry")
-    pushes = calls(mb, "Vec::<T, A>::push")
-    mpush = [i for i, t in pushes]
-    ok = bool(ecalls) and bool(mpush) and all(p not in mcfg.reachable(0, avoid=[e for e, _ in ecalls]) for p in mpush[:1])
-    r.decide(ok, "entry_compared", db.where(mb, ecalls[0][1]["l"]) if ecalls else db.where(mb),
-             "a merge can be scheduled without the successor having been compared with the entry vertex")
-    cmp_ok = False
-    for c in db.closures_of(MERGE):
-        cbody = db.mir.get(c)
-        if cbody is None:
-            continue
-        for b in cbody["blocks"]:
-            for s_ in b["s"]:
-                if s_.get("rv", {}).get("k") == "BinaryOp" and s_["rv"].get("op") == "Eq":
-                    cmp_ok = True
-    r.decide(cmp_ok, "entry_equality", db.where(mb), "the entry comparison must be an equality with the successor")
+    merge_rules(db, rep, "R7")
 
     # ---------------------------------------------------------------- R9 edge endpoints
     r = rep.rule("R9", "K5", "edge endpoints: every edge between lifted blocks (manual edges and successor edges, and the duplicate test that "
@@ -405,6 +374,41 @@ def run(db, rep, feat, tier):
                     found = True
         r.decide(found, "%s|fallthrough_successor" % arch, db.where(b),
                  "%s translate_block never pushes the unguarded successor (address + offset, None)" % arch)
+
+
+def merge_rules(db, rep, rid="R7"):
+    mb = db.mir.get(MERGE)
+    rep.anchor(mb is not None, MERGE)
+    rep.analysed(MERGE)
+    mcfg = Cfg(mb)
+    adt = db.adt(CFGT)
+    fields = [f["name"] for f in adt["variants"][0]["fields"]]
+    ei, xi = ".%d" % fields.index("entry"), ".%d" % fields.index("exit")
+    r = rep.rule(rid, "K5", "merge keeps the entry: it never assigns the entry field, no block is scheduled for merging before the "
+                 "successor was compared with the entry, and when the absorbed block was the exit the exit moves to the absorber")
+    writes = [(i, s_) for i, b in enumerate(mb["blocks"]) for s_ in b["s"] if len(s_["d"]) >= 3 and s_["d"][0] == 1 and s_["d"][-1] in (ei, xi)]
+    ew = [w for w in writes if w[1]["d"][-1] == ei]
+    xw = [w for w in writes if w[1]["d"][-1] == xi]
+    r.decide(not ew, "entry_not_written", db.where(mb, ew[0][1]["l"]) if ew else db.where(mb),
+             "merge assigns the entry: the block at the function address can be absorbed by a predecessor and execution starts elsewhere")
+    r.decide(len(xw) == 1, "exit_follows_absorber", db.where(mb), "merge must move the exit to the absorbing block exactly once")
+    ecalls = calls(mb, CFGT + "::entry")
+    pushes = calls(mb, "Vec::<T, A>::push")
+    mpush = [i for i, t in pushes]
+    ok = bool(ecalls) and bool(mpush) and all(p not in mcfg.reachable(0, avoid=[e for e, _ in ecalls]) for p in mpush[:1])
+    r.decide(ok, "entry_compared", db.where(mb, ecalls[0][1]["l"]) if ecalls else db.where(mb),
+             "a merge can be scheduled without the successor having been compared with the entry vertex")
+    cmp_ok = False
+    for c in db.closures_of(MERGE):
+        cbody = db.mir.get(c)
+        if cbody is None:
+            continue
+        for b in cbody["blocks"]:
+            for s_ in b["s"]:
+                if s_.get("rv", {}).get("k") == "BinaryOp" and s_["rv"].get("op") == "Eq":
+                    cmp_ok = True
+    r.decide(cmp_ok, "entry_equality", db.where(mb), "the entry comparison must be an equality with the successor")
+
 
 
 def evalg(e, env, lets, depth=0):
